@@ -22,7 +22,7 @@ RULE = ("a case = one story x one choice sequence x one pause schedule on the vi
         "visit counts, observer notifications, external calls); state-changing calls are tried during pauses; "
         "non-trivial when at least one pause really happened mid-line; distinct by story + choices + schedule")
 ASSUMPTIONS = ["time is the virtual step clock of hook H3 (the real clock truncates to whole milliseconds and is not "
-               "repeatable)", "handler deliveries are compared as a multiset per line (a pause delivers early)"]
+               "repeatable)", "errors handed to the handler are compared per line, warnings as a set per story (a pause hands over early what a rewind raises again; C13 owns deliveries)"]
 EXPLANATION = ("Proved: refusals during an unfinished time-limited continue (all entry points), a blocking continue "
                "always completes a paused one and leaves the story quiescent, the recursion count is balanced over "
                "pauses. NOT proved (stated in Proofs/C08.lean): the full sliced = blocking equivalence; it is decided "
@@ -126,7 +126,12 @@ def one_case(job):
         return {"r": l["r"], "text": l["text"],
                 "obs": sorted(json.dumps(e) for e in evs if e and e[0] == "obs"),
                 "ext": [e[:4] for e in evs if e and e[0] == "ext"],
-                "handler": sorted(json.dumps(e) for e in evs if e and e[0] == "handler")}
+                "handler": sorted(json.dumps(e) for e in evs if e and e[0] == "handler" and e[1] != "W")}
+    # C08 names lines, tags, choices, variables, counts, notifications and external calls, not message deliveries: a
+    # WARNING raised inside a look-ahead is handed over at a pause and raised again when the rewound content runs
+    # (C13's business); errors end the line in both modes and are compared per line, warnings as a set per story.
+    def warn_set(ls):
+        return sorted({json.dumps(e) for l in ls for e in l["ev"] if e and e[0] == "handler" and e[1] == "W"})
     for i, (x, y) in enumerate(zip(base_lines, lines)):
         cx, cy = canon_line(x), canon_line(y)
         # a look-ahead-safe external may run again after a pause: compare the calls as sets
@@ -136,6 +141,11 @@ def one_case(job):
                                        "unsliced": cx, "sliced": cy, "why": "slicing changed a line or its callbacks"},
                                       {"kind": "line", "schedule": kind}))
             break
+    if not res["violations"] and warn_set(base_lines) != warn_set(lines):
+        res["violations"].append(({"story": desc, "choices_seed": cseed, "schedule": [kind, param],
+                                   "unsliced_warnings": warn_set(base_lines), "sliced_warnings": warn_set(lines),
+                                   "why": "slicing changed the set of warnings handed to the handler"},
+                                  {"kind": "warnings", "schedule": kind}))
     # non-cont results (tags, observe_all, choices, ...) must agree as well
     others_b = [(op, r) for op, r in zip(base.ops, base.results) if op != ["cont"]]
     sliced_ops = [(op, r) for op, r in zip(sl.ops, sl.results)
